@@ -641,14 +641,17 @@ normalisation table (Model.norm_pay) is supplied per case; recursion limit (fuel
 configurations; per-subgraph opset imports.
 
 FINDINGS
-* shape-without-type (known_findings.d/C03.json, proposed_fixes/C03-shape-without-type.diff): a Value with a shape
-  but no type loses the shape on to_proto (serialize_shape_into finds no type field and skips with a warning) although
-  tensor_type{shape} without elem_type is representable and is exactly what the deserializer reads back as
-  (type None, shape S).  Also lossy for proto -> IR -> proto.  In the Gallina model this is the leaf normalisation
-  norm_pay, so the structural theorem is unaffected; the Python oracle reports it (attributed by repair: clearing
-  those shapes makes the oracle pass).
+* shape-without-type (known_findings.d/C03.json, proposed_fixes/C03-shape-without-type.diff; FIXED in /repo by
+  5c8d56d): a Value with a shape but no type lost the shape on to_proto (serialize_shape_into found no type field and
+  skipped with a warning) although tensor_type{shape} without elem_type is representable and is exactly what the
+  deserializer reads back as (type None, shape S).  Found by IsoCheck ("iso:shape"), attributed by repair (clearing
+  those shapes made the oracle pass).  Now an ordinary supported case: half of the generated models contain such
+  values, the witness is replayed on every run (`fixed: property=C03 5c8d56d ...`; failing again ->
+  fixed-finding-regressed).  The attribution-by-repair machinery (REPAIRS / known_key) stays for future entries.
 * Side observation (C01 territory): `graph.outputs[i] = v` with v owned by another graph raises ValueError after
   clearing is_graph_output/_graph of the old value, which stays in the list.
+* After 420823a (C17 fix) an initializer that is not a graph input reads back with a missing type and/or a missing
+  shape filled in from its tensor: accepted deviation, field by field.
 
 PART 1 CHANGES (C17 re-checked): function attribute tokens order-insensitive; attr_key/ir_attr_entry take
 tensor_key_fn so tensor-valued node attributes are keyed as serialized.
@@ -977,7 +980,7 @@ class Gen:
         self.ginfo: dict = {}         # gid -> {"parent": gid | None, "fn": bool}
         self.hv: dict = {}            # id(Value) -> handle
         self.hn: dict = {}            # id(Node) -> handle
-        self.shape_no_type = rng.random() < 0.10
+        self.shape_no_type = rng.random() < 0.5        # values with a shape but no type (fixed finding 5c8d56d)
         self.profile = profile
         self.breaks: list = []
         self.funcs: list = []         # (fid, domain, name, overload)
@@ -1916,13 +1919,14 @@ class IsoCheck:
         self.vpairs.append((a, b, where))
         if a.name != b.name:
             self.err("name", f"{where}: value name {a.name!r} vs {b.name!r}")
-        init_no_info = a.is_initializer() and a.type is None and a.shape is None
+        # documented: "Users expect initialized values to have shape and type information": an initializer's
+        # missing type / missing shape may come back filled in from its tensor
+        fill = a.is_initializer() and b.const_value is not None
         if not _same_type(a.type, b.type):
-            # documented: "Users expect initialized values to have shape and type information"
-            if not (init_no_info and b.const_value is not None and _same_type(b.type, _tensor_type(b.const_value))):
+            if not (fill and a.type is None and _same_type(b.type, _tensor_type(b.const_value))):
                 self.err("type", f"{where}: value {a.name!r} type {a.type!r} vs {b.type!r}")
         if not _same_shape(a.shape, b.shape):
-            if not (init_no_info and b.const_value is not None and _same_shape(b.shape, b.const_value.shape)):
+            if not (fill and a.shape is None and _same_shape(b.shape, b.const_value.shape)):
                 self.err("shape", f"{where}: value {a.name!r} shape {a.shape!r} (type {a.type!r}) vs {b.shape!r}")
         if not _falsy_eq(a.doc_string, b.doc_string):
             self.err("doc", f"{where}: value {a.name!r} doc {a.doc_string!r} vs {b.doc_string!r}")
@@ -2443,9 +2447,18 @@ def search(ck, diverging: list) -> None:
 
 def replay_known(ck) -> None:
     for k in ck._known:  # noqa: SLF001
+        msgs = oracle_fails(k["witness"]["recipe"])
+        ck.count()
+        if k.get("status") == "fixed":
+            # a repaired finding is an ordinary supported case: its witness must pass now
+            if msgs:
+                ck.broken(f"fixed-finding-regressed:{k['key']}",
+                          f"the witness of the finding fixed in {k.get('commit')} fails again: {msgs[:3]}")
+            else:
+                print(f"fixed: property=C03 {k.get('commit')} {k.get('what', k['key'])[:160]}", flush=True)
+            continue
         if k.get("status") != "known":
             continue
-        msgs = oracle_fails(k["witness"]["recipe"])
         if msgs and all(k["site"]["message_contains"] in m for m in msgs):
             ck.known_finding(k["key"], k["what"])
         else:
